@@ -3,7 +3,7 @@
 # applies the patch to a scratch worktree of /repo (outside /repo and /verif), runs the quick checks against it
 # (VERIF_REPO; with STOP_ON_DETECT=1 it stops after the first check that reports), removes the worktree.  /repo itself is never touched, so several mutants can run in parallel.
 set -u
-P="$1"; shift
+P=$(readlink -f "$1"); shift
 TAG=$(echo "$P" | tr '/.' '__')
 W=/tmp/mw_$TAG
 O=/tmp/mo_$TAG
